@@ -117,6 +117,19 @@ pub fn run(rep: &mut Rep) {
                     w.deliver_ack(i, st, 0, 0);
                     w.settle_check();
                 }
+                // with a Receive Maximum announced by the resuming CONNACK, every other case has the broker acknowledge
+                // everything before the connection is lost again: none of it may come back on the third connection
+                if rmax.is_some() {
+                    rep.add("second_blocks_with_a_receive_maximum", 1);
+                }
+                if rmax.is_some() && (acts.len() / 2) % 2 == 0 {
+                    for _ in 0..12 {
+                        let Some(&(i, st)) = w.ackable().first() else { break };
+                        w.deliver_ack(i, st, 0, 0);
+                        w.settle_check();
+                    }
+                    rep.add("second_losses_with_everything_acknowledged", 1);
+                }
                 w.eof();
                 w.settle_check();
                 let (p2, r2) = w.unfinished();
